@@ -75,3 +75,11 @@ CASES += [
     {"name": "temperature short-cut by the bath flag (seeded change of round 5)", "kind": "mutant", "rule": "C14-I", "edits": [
         ("quantarhei/builders/molecules.py", "        if self.check_temperature_consistent():", "        if not self._has_system_bath_coupling:\n            return 0.0\n        if self.check_temperature_consistent():", 1)]},
 ]
+
+CASES += [
+    {"name": "misspelt attribute of the correlation function matrix (the repaired defect)", "kind": "mutant", "rule": "C14-J", "edits": [
+        ("quantarhei/builders/molecules.py", "                return self.egcf_matrix.cfuncs[iof]", "                return self.egcf_matrix.cfunc[iof]", 1)]},
+    {"name": "temperature from the first transition only (the repaired defect)", "kind": "mutant", "rule": "C14-J", "edits": [
+        ("quantarhei/builders/molecules.py", "            for bath in self.egcf:\n                if bath is not None:\n                    return bath.get_temperature()\n\n            # environments given",
+         "            try:\n                egcf = self.get_transition_environment([0,1])\n            except:\n                egcf = None\n            if egcf is not None:\n                return egcf.get_temperature()\n\n            # environments given", 1)]},
+]
